@@ -513,3 +513,8 @@ K('C02', 'krondot-normaliser-from-answers', [(GM, "        result = result.trans
 _MP_OLD = "        edges = set()\n        messages = [(a,b) for a,b in self.tree.edges()] + [(b,a) for a,b in self.tree.edges()]\n        for m1 in messages:\n            for m2 in messages:\n                if m1[1] == m2[0] and m1[0] != m2[1]:\n                    edges.add( (m1, m2) )\n        G = nx.DiGraph()\n        G.add_nodes_from(messages)\n        G.add_edges_from(edges)\n        return list(nx.topological_sort(G)) "
 T('C12', 'schedule-two-sweeps', [(JT, _MP_OLD, "        root = nx.center(self.tree)[0]\n        down = list(nx.dfs_edges(self.tree, root))\n        up = [(b,a) for a,b in reversed(down)]\n        return up + down")])
 K('C12', 'schedule-two-sweeps-collect-not-reversed', [(JT, _MP_OLD, "        root = nx.center(self.tree)[0]\n        down = list(nx.dfs_edges(self.tree, root))\n        up = [(b,a) for a,b in down]\n        return up + down")], 'schedule')
+
+# ---- C11 ownership of the count vectors (near-miss round, seed C11-2)
+K('C11', 'project-returns-view-of-cached-marginal', [(FACT, "        marginalized = self.domain.marginalize(attrs)\n", "        marginalized = self.domain.marginalize(attrs)\n        if len(marginalized) == 0:\n            return self.transpose(attrs)\n")], 'private-counts')
+T('C11', 'project-returns-copy-when-nothing-to-sum', [(FACT, "        marginalized = self.domain.marginalize(attrs)\n", "        marginalized = self.domain.marginalize(attrs)\n        if len(marginalized) == 0:\n            return self.copy().transpose(attrs)\n")])
+T('C11', 'generator-rescales-a-copy', [(GM, "            counts *= total / counts.sum()\n", "            counts = counts * (total / counts.sum())\n")])
